@@ -4,6 +4,7 @@ import Jrpc.Oracle.C17
 import Jrpc.Oracle.C12
 import Jrpc.Oracle.C02
 import Jrpc.Oracle.C13
+import Jrpc.Oracle.C03
 /-! The model oracle: one line in, one line out. First token selects the sub-command. -/
 open Jrpc.Oracle
 
@@ -17,6 +18,7 @@ def dispatch (line : String) : String :=
   | "c02" :: r => C02.handle r
   | "c13p" :: r => C02.handleParse r
   | "c13e" :: r => C13.handle r
+  | "c03" :: r => C03.handle r
   | _ => "bad-op"
 
 partial def loop (h : IO.FS.Stream) (out : IO.FS.Stream) : IO Unit := do
